@@ -6,8 +6,10 @@ VERIF="$(cd "$(dirname "$0")/.." && pwd)"
 CHECKS="C01 C02 C03 C04 C05 C06 C07 C08 C09 C10 C11 C12 C13 C15 C17 C18 C19 C20"
 for p in "$VERIF"/neutral/*/patch.diff "$VERIF"/mutants/N*.patch; do
   n="$(basename "$(dirname "$p")")"; [ "$n" = "mutants" ] && n="$(basename "$p" .patch)"
-  if ! git -C /repo apply --check "$p" 2>/dev/null; then echo "$n: DOES NOT APPLY to HEAD any more"; continue; fi
-  res="$("$VERIF/tools/mutant.sh" "$p" $CHECKS 2>&1 | grep '^RESULT')"
+  if grep -q '"status_at_final_state": "superseded' "$(dirname "$p")/meta.json" 2>/dev/null; then echo "$n: superseded (see meta.json)"; continue; fi
+  out="$("$VERIF/tools/mutant.sh" "$p" $CHECKS 2>&1)"
+  if echo "$out" | grep -q 'PATCH DOES NOT APPLY'; then echo "$n: DOES NOT APPLY to HEAD any more (not even by three-way merge)"; continue; fi
+  res="$(echo "$out" | grep '^RESULT')"
   bad="$(echo "$res" | grep -o 'C[0-9][0-9]:\(CAUGHT\|INFRA([0-9]*)\)' | tr '\n' ' ')"
   if [ -n "$bad" ]; then echo "$n: NOT SILENT: $bad"; else echo "$n: all silent"; fi
 done
